@@ -25,7 +25,7 @@ func vxScenario() (h *Handler, c *vxChain, id BlockID, want int, found bool) {
 	if vx.Bool("hasL1") {
 		c.hasL1, c.l1 = true, vx.U64("l1")
 	}
-	h = &Handler{bcReader: c}
+	h = New(c, nil, nil, nil) // the real constructor (caches, feeds, limits as in production)
 	head := nb - 1
 
 	// the denoted block according to the model
